@@ -24,6 +24,8 @@ def run(chk):
     chk.rule("ZERASE", "the USINGZ copies of the offset code (clipper.offset.cpp: every join / cap helper has an #ifdef USINGZ twin) equal the plain "
              "code after erasing Z-only constructs: the property holds in both builds or in neither")
     chk.rule("GROUP.strip-closed", "Group::Group strips a closing vertex (last == first) exactly for EndType::Polygon and EndType::Joined")
+    chk.rule("POLY.offset", "join formulas as identities of normal forms: GetUnitNormal is the right-hand unit normal; sin_a / cos_a are cross / dot of the "
+             "two normals; DoMiter, DoBevel, DoRound (first point and rotation step), GetPerpendic(D) append the textbook points")
     chk.rule("TARGET.set", "solution, solution_tree and the derived miter threshold temp_lim_ are written by every ClipperOffset::Execute overload before "
              "they are read (output target of this call; MiterLimit() set after construction is honoured)")
     chk.rule("OFFSET.sign", "|delta| < 0.5 copies the inputs; group_delta_ = -delta iff a Polygon group is reversed, |delta| for open paths; "
@@ -37,6 +39,8 @@ def run(chk):
         e12.offset_cleanup_table(db, chk, cfg)
         e12.offset_sign_rules(db, chk, cfg)
         e12.group_strip_rule(db, chk, cfg)
+        from ..engines import e14_poly as e14
+        e14.rule_offset(db, chk, cfg)
         # groups are offset independently of each other (several groups in one ClipperOffset)
         eng = e2.E2(db, chk, cfg, ["ClipperOffset"])
         OFF, why = offset_table(db)
